@@ -475,10 +475,12 @@ T(ALL, '1040', '36', 'limit', CARRY('34'), 'Form 1040 line 36: Amount of line 34
 
 
 def _f1040_37(c):
+    # Reading fixed by the lead: the face of the form says "Subtract line 33 from line 24"; the instruction booklet adds
+    # the line 38 penalty on top, but property C15 (given and fixed) states that overpayment minus amount owed equals
+    # payments minus tax, so the penalty is NOT part of line 37 here.
     due = c.L('24') - c.L('33')
-    pen = c.L('38')
     if due > 0:
-        return due + pen
+        return due
     if due < 0:
         return 0.0
     return None
